@@ -112,6 +112,7 @@ class SimRun:
         gb = lsl.GraphBuilder(to_float32=False)
         gb.add(*self.vars.values(), *self.weak_vars.values(), *self.nodes.values())
         self.model = gb.build_model()
+        self.slots = []
 
     def _fn(self, i):
         def fn(*xs):
@@ -180,6 +181,10 @@ class SimRun:
             m.auto_update = o["b"]
         elif o["ev"] == "update_all":
             m.update()
+        elif o["ev"] == "save":
+            self.slots.append(m.state)
+        elif o["ev"] == "restore":
+            m.state = self.slots[o["slot"] - 1]
         elif o["ev"] == "simulate":
             self.draw_log.clear()
             skip = []
@@ -213,9 +218,20 @@ def gen_ops(rng, plan, nops):
                 "skip": sorted(rng.sample(dvals, k)) if rng.random() < 0.5 else [],
                 "skip_how": rng.choice(["var", "dist", "at"])}
 
+    nslots = 0
     while len(ops) < nops:
         r = rng.random()
-        if r < 0.3:
+        if r < 0.12 and vals:
+            # a state is saved, the parameters move on, the state is loaded again (Model.state setter: no flagging), and
+            # children are simulated with their parents skipped (the usual posterior-predictive loop)
+            s_ = sim()
+            s_["skip"] = sorted(rng.sample(dvals, max(0, len(dvals) - 1))) if dvals else []
+            s_["skip_how"] = "var"
+            ops += [{"ev": "update_all"}, {"ev": "save"},
+                    {"ev": "assign", "n": rng.choice(vals), "x": rng.randint(1, 9)}, {"ev": "update_all"},
+                    {"ev": "restore", "slot": nslots + 1}, s_]
+            nslots += 1
+        elif r < 0.3:
             ops.append(sim())
         elif r < 0.45:
             # assignment with auto-update off, switched back on without an update, then simulate
@@ -288,3 +304,49 @@ def fixed_traces():
             hdr["ops"] = ops
             out.append({"hdr": hdr, "ev": [run.op(o) for o in ops]})
     return out
+
+
+def tfp_shape_trace():
+    """Real TFP distributions: simulate, give a variable a value of another shape, simulate again - the draw has the
+    shape of the *current* value and equals what a fresh model of that shape draws for the same seed."""
+    import tensorflow_probability.substrates.jax.distributions as tfd
+
+    def make(n):
+        mu = lsl.Var(jnp.float32(0.0), lsl.Dist(tfd.Normal, loc=0.0, scale=1.0), name="mu")
+        x = lsl.Var(jnp.zeros(n, jnp.float32), lsl.Dist(tfd.Normal, loc=mu, scale=1.0), name="x")
+        w = lsl.Var(jnp.zeros((2, n), jnp.float32), lsl.Dist(tfd.Normal, loc=x, scale=0.5), name="w")
+        return lsl.GraphBuilder().add(w).build_model()
+
+    ev = []
+    for auto in (True, False):
+        try:
+            ev.append(_tfp_block(make, auto))
+        except Exception as ex:  # noqa: BLE001  (real distributions: an exception here is the library's)
+            ev.append({"ev": "tfp_simulate", "auto": auto, "first_shapes": [], "second_shapes": [], "same_as_fresh": False,
+                       "crash": f"{type(ex).__name__}: {ex}"[:200]})
+    hdr = {"n": 1, "kind": ["v"], "inp": [[]], "init": [0], "sims": [], "factors": [], "plan": [{"kind": "v", "inp": []}],
+           "value_shapes": [[]], "ops": []}
+    return {"hdr": hdr, "ev": ev}
+
+
+def _tfp_block(make, auto):
+    if True:
+        m = make(3)
+        m.auto_update = auto
+        m.simulate(jax.random.PRNGKey(1))
+        first = [list(np.shape(m.vars[v].value)) for v in ("mu", "x", "w")]
+        m.auto_update = False
+        m.vars["x"].value = jnp.zeros(4, jnp.float32)
+        m.vars["w"].value = jnp.zeros((2, 4), jnp.float32)
+        m.update()
+        m.auto_update = auto
+        m.simulate(jax.random.PRNGKey(2))
+        m.update()
+        fresh = make(4)
+        fresh.auto_update = auto
+        fresh.simulate(jax.random.PRNGKey(2))
+        fresh.update()
+        second = [list(np.shape(m.vars[v].value)) for v in ("mu", "x", "w")]
+        return {"ev": "tfp_simulate", "auto": auto, "first_shapes": first, "second_shapes": second, "crash": "",
+                "same_as_fresh": all(np.array_equal(np.asarray(m.vars[v].value), np.asarray(fresh.vars[v].value))
+                                     for v in ("mu", "x", "w"))}
